@@ -284,12 +284,21 @@ def mk_service_class(w: World, idx: int, svc: Dict[str, Any]):
         "STATE_VARIABLE_DEFINITIONS": sdefs,
     }
     for k, a in enumerate(svc["acts"]):
-        async def handler(self, _w=w, **kwargs):
+        async def handler(self, _w=w, _a=a, **kwargs):
             _w.seen = dict(kwargs)
             sc = _w.script
             if "err" in sc:
                 raise UpnpActionError(error_code=sc["err"], error_desc="scripted")
-            return dict(sc.get("ret", {}))
+            res = dict(sc.get("ret", {}))
+            # the library's own idiom (contrib/dummy_router.py): assign the related state variable and return
+            # the UpnpStateVariable object itself
+            omap = dict(map(tuple, _a["out"]))
+            for k in sc.get("retvar", []):
+                if k in res and k in omap:
+                    sv = self.state_variable(omap[k])
+                    sv.value = res[k]
+                    res[k] = sv
+            return res
         handler.__annotations__ = {arg: py_type(vtypes[var]) for arg, var in a["in"] if var in vtypes}
         ns[f"act_{k:03d}"] = callable_action(a["name"], dict(map(tuple, a["in"])), dict(map(tuple, a["out"])))(handler)
     return type(f"GenService{idx}", (UpnpServerService,), ns)
@@ -440,6 +449,8 @@ def args_tok(args) -> str:
 def script_tok(sc: Dict[str, Any]) -> str:
     if "err" in sc:
         return f"E:{'N' if sc['err'] is None else sc['err']}"
+    if sc.get("retvar"):
+        return f"V:{';'.join(sc['retvar'])}:{dict_tok(sc.get('ret', {}))}"
     return f"R:{dict_tok(sc.get('ret', {}))}"
 
 
@@ -596,6 +607,11 @@ async def _run_ops(recipe, w, lines, tags, svcs, app, xfer, base, loopback):
             sc["err"] = op["err"]
         else:
             sc["ret"] = {k: val_from_json(v) for k, v in op.get("ret", {}).items()}
+            if op.get("retvar") and adef is not None:
+                omap = dict(map(tuple, adef["out"]))
+                sc["retvar"] = [k for k in op["retvar"] if k in sc["ret"] and k in omap]
+                if sc["retvar"]:
+                    tags.add("script:returns-state-variable")
             if adef is not None:
                 for k, v in sc["ret"].items():
                     var = dict(map(tuple, adef["out"])).get(k)
@@ -998,7 +1014,8 @@ def g_script(rng, svc, act) -> Dict[str, Any]:
     vmap = {v["name"]: v for v in svc["vars"]}
     c = rng.randrange(10)
     if c < 2:
-        return {"err": rng.choice([401, 402, 501, 600, 601, 602, 603, 604, 605, 700, 714, 899, 1, 42])}
+        # `None`: UpnpActionError() without a code (the server reports 501 Action Failed)
+        return {"err": rng.choice([401, 402, 501, 600, 601, 602, 603, 604, 605, 700, 714, 899, 1, 42, None])}
     outs = [o for o in act["out"]]
     if c == 2 and outs:
         outs = rng.sample(outs, rng.randrange(0, len(outs) + 1))
@@ -1019,7 +1036,18 @@ def g_script(rng, svc, act) -> Dict[str, Any]:
                     ret[name] = int(bad)
                 except ValueError:
                     pass
-    return {"ret": ret}
+    sc: Dict[str, Any] = {"ret": ret}
+    if rng.random() < 0.4:
+        # return (some of) the results as the related UpnpStateVariable objects; one key per variable (two keys
+        # sharing a variable would both report the last assignment - the handler's own doing)
+        seen_vars, keys = set(), []
+        for name, var in act["out"]:
+            if name in ret and var not in seen_vars and rng.random() < 0.7:
+                seen_vars.add(var)
+                keys.append(name)
+        if keys:
+            sc["retvar"] = keys
+    return sc
 
 
 def g_ops(rng, defn, per_action: int, raw_per_action: int) -> List[Dict[str, Any]]:
@@ -1174,6 +1202,20 @@ CORPUS.append(
         {"kind": "call", "svc": 0, "act": "Echo", "args": {"Value": "x"}, "err": 701},
         {"kind": "raw", "svc": 0, "act": "SetVolume", "class": "valid", "soapaction": '"urn:schemas-upnp-org:service:S0:1#SetVolume"',
          "ret": {"Volume": "v"}, "body": env_tree(_S_SAME["type"], "SetVolume", [("Volume", "100"), ("Channel", "")])},
+    ]})
+
+
+_S_VARS = _svc([{"name": "Uptime", "dtype": "ui4", "default": "7"}, {"name": "Mode", "dtype": "string", "allowed": ["a", "b"], "ev": True}],
+               [{"name": "GetUptime", "in": [], "out": [["NewUptime", "Uptime"], ["NewMode", "Mode"]]}])
+CORPUS.append(
+    # audit C14-1: handlers returning their state variables (`return {"NewUptime": self.state_variable("Uptime")}`)
+    {"defn": {"svcs": [_S_VARS], "dev": _dev([0])}, "ops": [
+        {"kind": "call", "svc": 0, "act": "GetUptime", "args": {}, "ret": {"NewUptime": 7, "NewMode": "b"}, "retvar": ["NewUptime", "NewMode"]},
+        {"kind": "call", "svc": 0, "act": "GetUptime", "args": {}, "ret": {"NewUptime": 9, "NewMode": "a"}, "retvar": ["NewUptime"]},
+        {"kind": "call", "svc": 0, "act": "GetUptime", "args": {}, "ret": {"NewUptime": 1, "NewMode": "zz"}, "retvar": ["NewMode"]},
+        {"kind": "call", "svc": 0, "act": "GetUptime", "args": {}, "err": None},
+        {"kind": "raw", "svc": 0, "act": "GetUptime", "class": "valid", "soapaction": '"urn:schemas-upnp-org:service:S0:1#GetUptime"',
+         "ret": {"NewUptime": 3}, "retvar": ["NewUptime"], "body": env_tree(_S_VARS["type"], "GetUptime", [])},
     ]})
 
 
